@@ -274,6 +274,11 @@ func c04(x *mon.Ctx) {
 		tw.Expect = "accept"
 		check(x, k, tw) // a rejected twin is reported by the must-accept expectation; the soundness workload still runs
 	}
+	enableShadowForTwins(x)
+	twins := [3]*world.Case{}
+	for k, b := range bases {
+		twins[k] = b.Case(world.LColl, "twin", fmt.Sprint(k))
+	}
 	abs := allAbsLevels()
 	mods1 := allAbsModules(false)
 	mods2 := allAbsModules(true)
@@ -348,6 +353,9 @@ func c04(x *mon.Ctx) {
 			param += fmt.Sprint("#", i)
 		}
 		c := c04Case(bases[j.k], x.Rand(fmt.Sprint("c", i)), j.lv, j.mod, j.ident, j.class, param)
+		if i%8 == 0 {
+			c.TwinRef = twins[j.k] // an eighth of the configurations also goes through re-used options values
+		}
 		if j.ident == "fmspc-mismatch" {
 			// the TCB Info is served under the URL of the certificate's FMSPC; its content names another one
 		}
